@@ -90,7 +90,133 @@ func (c *Ctx) elemReaches(k ssa.Value, use ssa.Instruction, mk func(k ssa.Value)
 			}
 		}
 	}
+	// validation done by the caller: the slice is a parameter, and at every call site a validating function ran
+	// on the same slice before, with its error checked
+	if def != nil {
+		_, sl, _ := an.RangeLoopOf(k)
+		if c.validatedByCallers(f, sl, mk) {
+			return "", false
+		}
+	}
 	return c.P.PathString(path), true
+}
+
+// validatedByCallers: sl is a parameter of f; at every static call site of f, every path from the caller's entry
+// passes a call V(…arg…) (same argument) whose error is checked before the call of f, and V rejects every element
+// for which mk holds (no such element reaches V's loop back edge or a successful return).
+func (c *Ctx) validatedByCallers(f *ssa.Function, sl ssa.Value, mk func(k ssa.Value) *an.Query) bool {
+	par, ok := sl.(*ssa.Parameter)
+	if !ok {
+		return false
+	}
+	idx := -1
+	for i, p := range f.Params {
+		if p == par {
+			idx = i
+		}
+	}
+	sites := callSitesOf[an.Origin(f)]
+	if idx < 0 || len(sites) == 0 {
+		return false
+	}
+	for _, site := range sites {
+		args := an.CallArgs(site)
+		if idx >= len(args) {
+			return false
+		}
+		argAP := an.AP(args[idx])
+		var siteInstr ssa.Instruction
+		caller := siteParent(site)
+		if caller == nil {
+			return false
+		}
+		an.AllInstrs(caller, func(in ssa.Instruction) {
+			if an.CallOf(in) == site {
+				siteInstr = in
+			}
+		})
+		if siteInstr == nil {
+			return false
+		}
+		// candidate validators called in the caller with the same slice argument
+		okSite := false
+		an.AllInstrs(caller, func(in ssa.Instruction) {
+			vcall, isCall := in.(*ssa.Call)
+			if !isCall || okSite || in == siteInstr {
+				return
+			}
+			v := an.StaticCallee(&vcall.Call)
+			if v == nil || !an.InModule(v) || an.ErrorResultIndex(v) < 0 {
+				return
+			}
+			vidx := -1
+			for i, a := range an.CallArgs(&vcall.Call) {
+				if an.AP(a) == argAP {
+					vidx = i
+				}
+			}
+			if vidx < 0 || vidx >= len(v.Params) {
+				return
+			}
+			// every path entry -> site passes the err == nil edge of this validator call
+			errVal := ssa.Value(vcall)
+			passes := (&an.Query{
+				Target: func(t ssa.Instruction) bool { return t == siteInstr },
+				BlockEdge: func(b *ssa.BasicBlock, succ int) bool {
+					cond, onTrue := an.EdgeCond(b, succ)
+					if cond == nil {
+						return false
+					}
+					x, kc, eq, ok := an.CondAtom(cond)
+					return ok && kc.Value == nil && x == errVal && eq == onTrue
+				},
+			}).Search(an.Entry(caller)) == nil
+			if !passes {
+				return
+			}
+			// V rejects every element for which mk holds
+			vpar := v.Params[vidx]
+			good := false
+			for _, l := range rangeLoops(v) {
+				if l.slice != ssa.Value(vpar) {
+					continue
+				}
+				good = len(l.elems) > 0
+				for _, e := range l.elems {
+					q := mk(e.(ssa.Value))
+					q.Target = func(t ssa.Instruction) bool {
+						if t == e {
+							return true
+						}
+						r, ok := t.(*ssa.Return)
+						return ok && an.IsSuccessReturn(r)
+					}
+					if q.Search(an.After(e)) != nil {
+						good = false
+					}
+					// no break out of the loop other than through the header or a return
+				}
+			}
+			if good {
+				okSite = true
+			}
+		})
+		if !okSite {
+			return false
+		}
+	}
+	return true
+}
+
+func siteParent(call *ssa.CallCommon) *ssa.Function {
+	for f, sites := range callSitesByCaller {
+		for _, s := range sites {
+			if s == call {
+				return f
+			}
+		}
+	}
+	return nil
 }
 
 // assumeEq builds a query factory assuming k == the string constant s.
